@@ -19,7 +19,7 @@
 //	open ...   -> ok
 //	tx ...     -> ok | err:<abci error type>       (the reference instance's DeliverTx result)
 //	probe ...  -> probed                           (a tx with an arbitrary gas limit that always fails)
-//	commit     -> h=<height> a=<render> b=<render> c=<render> h=<render>   (`-` = not deployed, `e` = empty)
+//	commit     -> h=<height> a=<render> b=<render> c=<render> h=<render> p=<render>   (`-` = not deployed, `e` = empty)
 //	restart    -> ok
 //
 // oracle (the statement itself, evaluated on the instances' real outputs; never
@@ -83,6 +83,7 @@ var slotPath = map[byte]string{
 	'b': "gno.land/r/c01/rb",
 	'c': "gno.land/r/c01/rc",
 	'h': "gno.land/r/c01/rh",
+	'p': "gno.land/r/sys/params", // the one realm allowed to write module parameters (no r/sys/names in this genesis: anybody may deploy it)
 }
 
 // ---------------------------------------------------------------- the realms
@@ -301,7 +302,50 @@ func Half(cur realm, k, v int) {
 func Render(path string) string { return strconv.Itoa(n) + "," }
 `
 
-var slotSrc = map[byte]string{'a': srcRA, 'b': srcRB, 'c': srcRC, 'h': srcRH}
+// rp: deployed at gno.land/r/sys/params.  Set(k) replaces the auth module's
+// unrestricted-address list: the auth keeper then flips the whitelist bit of every
+// added / removed account (tm2/pkg/sdk/auth/params.go applyUnrestrictedAddrsChange).
+var srcRP = strings.NewReplacer(
+	"ADDR0", userKey("u0").PubKey().Address().String(),
+	"ADDR1", userKey("u1").PubKey().Address().String(),
+	"ADDR2", userKey("u2").PubKey().Address().String(),
+).Replace(`package params
+
+import (
+	"strconv"
+
+	sysparams "sys/params"
+)
+
+var last int
+
+func Set(cur realm, k, v int) {
+	last = k
+	switch k {
+	case 0:
+		sysparams.SetSysParamStrings("auth", "p", "unrestricted_addrs", []string{})
+	case 1:
+		sysparams.SetSysParamStrings("auth", "p", "unrestricted_addrs", []string{"ADDR1", "ADDR2"})
+	case 2:
+		sysparams.SetSysParamStrings("auth", "p", "unrestricted_addrs", []string{"ADDR0", "ADDR1", "ADDR2"})
+	}
+}
+
+func Del(cur realm, k, v int) {}
+
+func Inc(cur realm, k, v int) {}
+
+func Fail(cur realm, k, v int) {
+	last = k
+	panic("fail")
+}
+
+func Sum(cur realm, k, v int) int { return last }
+
+func Render(path string) string { return strconv.Itoa(last) + "," }
+`)
+
+var slotSrc = map[byte]string{'a': srcRA, 'b': srcRB, 'c': srcRC, 'h': srcRH, 'p': srcRP}
 
 func runSrc(script string, k, v int) string {
 	switch script {
@@ -754,7 +798,7 @@ func trimRender(bz []byte, ok bool) string {
 
 func (w *world) dump(n *node) string {
 	var b strings.Builder
-	for _, s := range []byte{'a', 'b', 'c', 'h'} {
+	for _, s := range []byte{'a', 'b', 'c', 'h', 'p'} {
 		bz, ok := n.query("vm/qrender", []byte(slotPath[s]+":"))
 		fmt.Fprintf(&b, " %c=%s", s, trimRender(bz, ok))
 	}
@@ -765,7 +809,7 @@ func (w *world) dump(n *node) string {
 // accounting and the users' balances.
 func (w *world) extra(n *node) string {
 	var b strings.Builder
-	for _, s := range []byte{'a', 'b', 'c', 'h'} {
+	for _, s := range []byte{'a', 'b', 'c', 'h', 'p'} {
 		bz, _ := n.query("vm/qstorage", []byte(slotPath[s]))
 		b.WriteString(string(bz) + "|")
 	}
